@@ -151,3 +151,81 @@ pub fn reasons(e: &EnumSpec) -> Vec<String> {
 pub fn is_plain(e: &EnumSpec) -> bool {
     reasons(e).is_empty()
 }
+
+/// is `lit` a format literal that `format!` accepts when the fields of `v` are bound by name / by position, and
+/// that contains at least one placeholder? (every `{` closed before the next one, no stray `}`, every argument -
+/// placeholder or `name$` width / precision - one of the variant's fields)
+pub fn valid_format_literal(lit: &str, v: &VariantSpec) -> bool {
+    if v.kind == Kind::Unit {
+        return false;
+    }
+    let s = lit.replace("{{", "").replace("}}", "");
+    let mut open = false;
+    let mut n = 0;
+    for c in s.chars() {
+        match c {
+            '{' if open => return false,
+            '{' => open = true,
+            '}' if !open => return false,
+            '}' => {
+                open = false;
+                n += 1;
+            }
+            _ => {}
+        }
+    }
+    if open || n == 0 {
+        return false;
+    }
+    let is_field = |a: &str| match v.kind {
+        Kind::Named => v.fields.iter().any(|f| f.name.as_deref() == Some(a)),
+        Kind::Tuple => !a.is_empty() && a.chars().all(|c| c.is_ascii_digit()) && a.parse::<usize>().map(|i| i < v.fields.len()).unwrap_or(false),
+        Kind::Unit => false,
+    };
+    let args = model::placeholder_args(lit);
+    args.len() >= n && args.iter().all(|a| is_field(a))
+}
+
+/// C17: what is left of an enum when everything but its interpolating `to_string` literals is taken away - a
+/// `Display`-only enum with variants `V0, V1, ..` (same kinds and fields), each carrying at most its `to_string`
+/// literal, and only if `format!` accepts that literal with the fields bound. A derive that rejects THIS enum
+/// rejects a literal the property says it renders like `format!`. None if no such literal exists.
+pub fn format_core(e: &EnumSpec) -> Option<EnumSpec> {
+    let mut r = e.clone();
+    r.derives = vec!["Display".to_string()];
+    r.groups.clear();
+    r.noise.clear();
+    r.macro_args.clear();
+    r.decoys.clear();
+    r.repr = None;
+    r.repr_int = None;
+    r.disc_opts = None;
+    r.base_const = None;
+    r.base_const_name = None;
+    let mut any = false;
+    let mut vs = Vec::new();
+    for (i, v) in e.variants.iter().enumerate() {
+        if v.disabled() {
+            continue;
+        }
+        let mut nv = VariantSpec::unit(&format!("V{}", i));
+        nv.kind = v.kind;
+        nv.fields = v.fields.clone();
+        for f in nv.fields.iter_mut() {
+            f.default_with = false;
+        }
+        if let Some(l) = v.to_string_lit() {
+            if !v.is_default() && !v.transparent() && valid_format_literal(l, v) {
+                nv.groups = vec![vec![VAttr::ToString(l.to_string())]];
+                any = true;
+            }
+        }
+        vs.push(nv);
+    }
+    r.variants = vs;
+    if any {
+        Some(r)
+    } else {
+        None
+    }
+}
